@@ -171,7 +171,14 @@ class PKESessionKeyV3(PKESessionKey):
     @pkalg.register(int)
     @pkalg.register(PubKeyAlgorithm)
     def pkalg_int(self, val):
-        self._pkalg = PubKeyAlgorithm(val)
+        try:
+            self._pkalg = PubKeyAlgorithm(val)
+
+        except ValueError:
+            # an algorithm this implementation has no name for (RFC 4880 9.1 sets 100 to 110 aside for private use,
+            # later specifications assign further ids): this session key is for somebody else, and that must not
+            # keep the other recipients from reading the message
+            self._pkalg = val
 
         _c = {PubKeyAlgorithm.RSAEncryptOrSign: RSACipherText,
               PubKeyAlgorithm.RSAEncrypt: RSACipherText,
@@ -187,13 +194,15 @@ class PKESessionKeyV3(PKESessionKey):
         self.encrypter = bytearray(8)
         self.pkalg = 0
         self.ct = None
+        # the algorithm specific part, as received, for an algorithm whose fields are not known
+        self._opaque_ct = bytearray()
 
     def __bytearray__(self):
         _bytes = bytearray()
         _bytes += super(PKESessionKeyV3, self).__bytearray__()
         _bytes += binascii.unhexlify(self.encrypter.encode())
         _bytes += bytearray([self.pkalg])
-        _bytes += self.ct.__bytearray__() if self.ct is not None else b'\x00' * (self.header.length - 10)
+        _bytes += self.ct.__bytearray__() if self.ct is not None else self._opaque_ct
         return _bytes
 
     def __copy__(self):
@@ -201,6 +210,7 @@ class PKESessionKeyV3(PKESessionKey):
         sk.header = copy.copy(self.header)
         sk._encrypter = self._encrypter
         sk.pkalg = self.pkalg
+        sk._opaque_ct = self._opaque_ct[:]
         if self.ct is not None:
             sk.ct = copy.copy(self.ct)
 
@@ -281,8 +291,10 @@ class PKESessionKeyV3(PKESessionKey):
         if self.ct is not None:
             self.ct.parse(packet)
 
-        else:  # pragma: no cover
-            del packet[:(self.header.length - 18)]
+        else:
+            # version (1), key id (8) and algorithm (1) have been read
+            self._opaque_ct = packet[:(self.header.length - 10)]
+            del packet[:(self.header.length - 10)]
 
 
 class Signature(VersionedPacket):
